@@ -25,6 +25,29 @@ type ixWorld struct {
 	contents       map[int]map[int]int
 	evictions      int
 	detachedWrites int
+	// the slices of earlier Clear answers, as returned, next to private copies (an answer must not change later)
+	clearedKeys   [][]uint32
+	clearedKeysC  [][]uint32
+	clearedStores [][]*ixStore
+	clearedStoreC [][]*ixStore
+}
+
+// retainedClears compares every earlier Clear answer with its copy: an answer that reads differently after a
+// later request shares storage with the container or with another answer.
+func (w *ixWorld) retainedClears(after string) {
+	for i := range w.clearedKeys {
+		same := len(w.clearedKeys[i]) == len(w.clearedKeysC[i]) && len(w.clearedStores[i]) == len(w.clearedStoreC[i])
+		for j := 0; same && j < len(w.clearedKeys[i]); j++ {
+			same = w.clearedKeys[i][j] == w.clearedKeysC[i][j]
+		}
+		for j := 0; same && j < len(w.clearedStores[i]); j++ {
+			same = w.clearedStores[i][j] == w.clearedStoreC[i][j]
+		}
+		if !same {
+			w.fail("callbacks-mirror", fmt.Sprintf("the answer of Clear #%d was %v and reads %v after %s", i, w.clearedKeysC[i], w.clearedKeys[i], after),
+				w.sig("Clear", "retained-answer-changed"))
+		}
+	}
 }
 
 const ixUniverse = 5
@@ -174,6 +197,7 @@ func (w *ixWorld) exec(f []string) string {
 		if exp := w.expectListing(); ans != exp {
 			w.fail("callbacks-mirror", fmt.Sprintf("ForEach enumerated %s, want %s", ans, exp), w.sig("ForEach", "listing"))
 		}
+		w.retainedClears("ForEach")
 
 		return ans
 	case "clear":
@@ -191,6 +215,9 @@ func (w *ixWorld) exec(f []string) string {
 		if exp := w.expectListing(); ans != exp {
 			w.fail("callbacks-mirror", fmt.Sprintf("Clear returned %s, want %s", ans, exp), w.sig("Clear", "listing"))
 		}
+		w.retainedClears("Clear")
+		w.clearedKeys, w.clearedKeysC = append(w.clearedKeys, keys), append(w.clearedKeysC, append([]uint32(nil), keys...))
+		w.clearedStores, w.clearedStoreC = append(w.clearedStores, stores), append(w.clearedStoreC, append([]*ixStore(nil), stores...))
 		w.evictions += len(w.at)
 		w.at = map[uint32]int{}
 		n := 0
